@@ -125,7 +125,7 @@ struct SimHeap {
         if (!owns(p)) { ::free(p); return; }
         Block* b = findBase(p);
         if (!b) { foreignFrees++; return; }
-        if (watchFree && p == watchFree) { watchLeft = 0; for (size_t i = 0; i < watchSize && i < 4096; i++) if ((unsigned char)b->base[i] == (unsigned char)(0x30 + ((watchPat * 7 + i * 13) % 64))) watchLeft++; watchSeen = true; watchFree = 0; }
+        if (watchFree && p == watchFree) { watchLeft = 0; for (size_t i = 0; i < watchSize && i < 4096; i++) if (watchPat != 0x25252525ULL && (unsigned char)b->base[i] == (unsigned char)(0x30 + ((watchPat * 7 + i * 13) % 64))) watchLeft++; watchSeen = true; watchFree = 0; }
         if (dirty) memset(b->base, 0xDD, b->size);
         ASAN_POISON_MEMORY_REGION(b->base, b->size);
         b->live = false;
@@ -237,7 +237,8 @@ static size_t siteLine(int s) { static const size_t l[N_SITES] = { 10, 20, 11, 1
 
 // ------------------------------------------------------------------------------------------------ model
 struct MBlock { bool live, tracked; char* p; size_t size; int family; int route; unsigned number; Str file; size_t line; int period; unsigned char stage; Str allocName, typeName; uint64_t pat; bool guardDirty; TestMemoryAllocator* allocator; };
-static unsigned char patByte(uint64_t seed, size_t i) { return (unsigned char)(0x30 + ((seed * 7 + i * 13) % 64)); }
+static const uint64_t PCT_SEED = 0x25252525ULL;      // blocks whose content is full of printf metacharacters (a dump must never use content as a format)
+static unsigned char patByte(uint64_t seed, size_t i) { if (seed == PCT_SEED) return (unsigned char)"%s%n%d%%%s%x%n"[i % 14]; return (unsigned char)(0x30 + ((seed * 7 + i * 13) % 64)); }
 static void fillPat(MBlock& b) { size_t n = b.size > 4096 ? 4096 : b.size; for (size_t i = 0; i < n; i++) b.p[i] = (char)patByte(b.pat, i); if (b.size > 4096) for (size_t i = b.size - 64; i < b.size; i++) b.p[i] = (char)patByte(b.pat, i); }
 static bool checkPat(const MBlock& b, size_t upto, size_t* bad) {
     size_t n = upto > 4096 ? 4096 : upto;
@@ -303,7 +304,7 @@ struct Engine : public vf::Engine {
             if (acc) {
                 if (x < 38) { o.kind = H_ALLOC; o.a = (int64_t)w.below((uint64_t)nSlots); o.b = (int64_t)w.below(3); o.c = w.small(0, 200); o.phase = (int)w.below(3); o.s = siteFile((int)w.below(N_SITES)); }
                 else if (x < 62) { o.kind = H_FREE; o.a = (int64_t)w.below((uint64_t)nSlots); }
-                else if (x < 70) { o.kind = H_REALLOC; o.a = (int64_t)w.below((uint64_t)nSlots); o.c = w.small(0, 200); o.s = siteFile((int)w.below(N_SITES)); }
+                else if (x < 70) { o.kind = H_REALLOC; o.a = (int64_t)w.below((uint64_t)nSlots); o.c = w.chance(1, 5) ? -1 : w.small(0, 200); o.s = siteFile((int)w.below(N_SITES)); }      // c = -1: to the block's current size
                 else if (x < 82) { static const int ks[] = { H_ENABLE, H_DISABLE, H_START, H_STOP, H_MARK, H_STAGE_INC, H_STAGE_DEC }; o.kind = ks[w.below(7)]; }
                 else if (x < 85) o.kind = H_STAGE_FREE;
                 else if (x < 88) { o.kind = H_CLEAR; o.a = (int64_t)w.below(4); }
@@ -568,7 +569,7 @@ struct Engine : public vf::Engine {
                 if (gotNull) { if (!expectNull && !tooBig && !lenient && !isOom && !HEAP.undersized && !CTX.nullMemcpy) fail(W, "C05", "spurious_null", sg("op", on), sfmt("op %zu (%s, size %zu): NULL although nothing failed", oi, on, size)); break; }
                 // success
                 S.live = true; S.tracked = true; S.p = p; S.size = size; S.family = fam; S.route = route; S.number = W.seq++; S.file = file; S.line = line; S.period = W.period; S.stage = W.stage;
-                S.allocator = alloc; S.allocName = alloc->alloc_name(); S.pat = mix64(d.seed, oi); S.guardDirty = false;
+                S.allocator = alloc; S.allocName = alloc->alloc_name(); S.pat = (isDia && (oi % 5) == 0) ? PCT_SEED : mix64(d.seed, oi); S.guardDirty = false;
                 checkNewBlock(W, oi, on, p, size);
                 if (o.kind == H_CALLOC) { for (size_t k = 0; k < size; k++) if (p[k]) { fail(W, "C05", "calloc_zero", sfmt("op %zu: byte %zu of a calloc'ed block of %zu is 0x%02x", oi, k, size, (unsigned char)p[k])); break; } }
                 if (o.kind == H_STRDUP) { if (memcmp(p, src.data(), size - 1) != 0 || p[size - 1] != 0) fail(W, "C05", "strdup_copy", sfmt("op %zu: copy differs or is unterminated (length %zu)", oi, size - 1)); }
@@ -605,12 +606,12 @@ struct Engine : public vf::Engine {
                 if (!S.live || S.family != 2 || !S.p) break;
                 clearBuffer(W);
                 if (!S.tracked) {          // accounting was cleared for this block: it is a foreign address now
-                    char* q = S.route == 2 ? (char*)cpputest_realloc_location(S.p, (size_t)o.c, file, line) : det.reallocMemory(W.famAllocator[2], S.p, (size_t)o.c, file, line, S.route == 1);
+                    char* q = S.route == 2 ? (char*)cpputest_realloc_location(S.p, o.c == -1 ? S.size : (size_t)o.c, file, line) : det.reallocMemory(W.famAllocator[2], S.p, o.c == -1 ? S.size : (size_t)o.c, file, line, S.route == 1);
                     expectReports(W, oi, on, 0);
                     if (q) fail(W, "C06", "report_category", sg2("want", "non-allocated", "got", "a block"), sfmt("op %zu: realloc of an untracked address returned a block", oi));
                     break;
                 }
-                size_t size = (size_t)o.c; size_t overhead = GUARD + 8 + sizeof(MemoryLeakDetectorNode);
+                size_t size = o.c == -1 ? S.size : (size_t)o.c; size_t overhead = GUARD + 8 + sizeof(MemoryLeakDetectorNode);
                 bool tooBig = size > ((size_t)48 << 20) || size > SIZE_MAX - overhead;
                 bool expectNull = HEAP.failReallocIn == 0 || tooBig;
                 TestMemoryAllocator* fa = S.route == 2 ? currentFor(2) : W.famAllocator[2];
